@@ -61,6 +61,13 @@ func (ex *Exec) regionTerm(region string) *Term {
 	txt = placeholderRe.ReplaceAllStringFunc(txt, func(m string) string {
 		sv := ex.varByNm[m[1:]]
 		if sv == nil {
+			// a vChoice: substitute its concrete value
+			for i := len(ex.choices) - 1; i >= 0; i-- {
+				if ex.choices[i].Name == m[1:] {
+					args = append(args, mkInt(int64(ex.choices[i].V)))
+					return "%s"
+				}
+			}
 			missing = true
 			return m
 		}
